@@ -2,14 +2,27 @@
 # run_seeded.sh [tier] [name-filter]: apply every kept seeded change to /repo (or to the scratch
 # worktree named by MUT_REPO, which must be at /repo's HEAD) in turn, run the quick
 # (or given) check of its property, undo it, and write seeded/RESULTS.tsv.
+# PART=k/n (with MUT_REPO): take every n-th change starting at the k-th and write seeded/RESULTS.part-k.tsv,
+# so that n streams on n scratch worktrees can share the work; `tools/run_seeded.sh merge` joins the parts.
+if [ "${1:-}" = merge ]; then
+  OUT=/verif/seeded/RESULTS.tsv
+  printf "seeded change\tproperty\ttier\tapplies\tcheck exit\tfirst signature\n" > $OUT
+  cat /verif/seeded/RESULTS.part-*.tsv | sort >> $OUT; rm -f /verif/seeded/RESULTS.part-*.tsv
+  git -C /verif checkout -- evidence 2>/dev/null
+  awk -F'\t' 'NR>1{c[$5]++} END{for(k in c) print "exit " k ": " c[k]}' $OUT; exit 0
+fi
 TIER=${1:-quick}; FILTER=${2:-}
 R=${MUT_REPO:-/repo}; [ -n "${MUT_REPO:-}" ] && export VERIF_REPO=$MUT_REPO
 cd $R || exit 9
 if ! git diff --quiet; then echo "$R has uncommitted changes; refusing"; exit 9; fi
 OUT=/verif/seeded/RESULTS.tsv
+PK=0; PN=1
+if [ -n "${PART:-}" ]; then PK=${PART%/*}; PN=${PART#*/}; OUT=/verif/seeded/RESULTS.part-$PK.tsv; : > $OUT; FILTER=${FILTER:-.}; fi
+IDX=0
 [ -z "$FILTER" ] && printf "seeded change\tproperty\ttier\tapplies\tcheck exit\tfirst signature\n" > $OUT
 for d in /verif/seeded/*/; do
-  n=$(basename $d); [ -n "$FILTER" ] && [[ "$n" != *$FILTER* ]] && continue
+  n=$(basename $d); [ -n "$FILTER" ] && [ "$FILTER" != . ] && [[ "$n" != *$FILTER* ]] && continue
+  IDX=$((IDX+1)); [ $(( IDX % PN )) -ne $PK ] && continue
   p=$(jq -r .property $d/meta.json)
   # a change that only the thorough tier can reach says so in its meta.json ("tier": "thorough")
   t=$(jq -r '.tier // empty' $d/meta.json); [ -z "$t" ] && t=$TIER
@@ -25,5 +38,5 @@ for d in /verif/seeded/*/; do
   printf "%s\t%s\t%s\tyes\t%s\t%s\n" $n $p $t $rc "$sig" >> $OUT
 done
 # evidence written while a seeded change was applied is not evidence about the tree
-git -C /verif checkout -- evidence 2>/dev/null
-cat $OUT
+[ -z "${PART:-}" ] && git -C /verif checkout -- evidence 2>/dev/null
+[ -z "${PART:-}" ] && cat $OUT
